@@ -1154,7 +1154,7 @@ func deleteLandsOnNamedPath(c *engine.Ctx) {
 			}
 			if !exact || !isKey || !noBracket {
 				o.Fail(&engine.Violation{Key: "Server.doDelete|recorded path cut without an exact key-leaf match", Pos: c.P.Pos(e.Pos), Func: p.Root.Name(),
-					Msg: fmt.Sprintf("the delete is recorded on the parent of the named path on a path that does not establish all of: exact model match (%v), matched path is a key (%v), path does not end in ']' (%v)", exact, isKey, noBracket),
+					Msg:   fmt.Sprintf("the delete is recorded on the parent of the named path on a path that does not establish all of: exact model match (%v), matched path is a key (%v), path does not end in ']' (%v)", exact, isKey, noBracket),
 					Found: c.RenderConds(engine.CondsBefore(p, i))})
 				return
 			}
